@@ -8,7 +8,7 @@ ATOMS_FULL = ["a", "b", "0", "-", " ", "_",
               ".", "\\d", "\\s", "\\w",
               "[ab]", "[^a]", "[a-c]", "[a\\-c]", "[+*]", "[\\d_]", "[^a-c0]", "[.]", "[(|)]", "[a-]", "[\\]a]",
               "[^\\d]", "[^\\-a]", "[^\\]]", "[\\^a]", "[^\\w]", "[^b^]", "[a^]",
-              "[\\d.]", "[\\w+]", "[.\\d]", "\\\\d", "[\\s ]", "[\\\\d]"]
+              "[\\d.]", "[\\w+]", "[.\\d]", "\\\\d", "[\\s ]", "[\\\\d]", "[^^a]", "[^a^]"]
 ATOMS_SMALL = ["a", ".", "[ab]", "\\d", "\\+", "[^a]"]
 QUANTS = ["", "*", "+", "?", "{0}", "{1}", "{2}", "{0,1}", "{1,2}", "{2,2}", "{0,0}", "{1,1}", "{2,3}"]
 QUANTS_SMALL = ["", "*", "+", "?", "{2}", "{1,2}", "{0,1}"]
@@ -134,3 +134,15 @@ def strings():
                 rec(prefix + c, k - 1)
         rec("", n)
     return out
+
+
+SET_ATOMS = [a for a in ATOMS_FULL if a.startswith("[")]
+
+
+def set_pairs():
+    """ordered pairs of set atoms: both patterns are built one after the other in the same process (module-level
+    state shared between PythonRegex objects must not matter)"""
+    for x in SET_ATOMS:
+        for y in SET_ATOMS:
+            if x != y:
+                yield ("seq", (x, y))
